@@ -270,7 +270,7 @@ def parse_args(cmd_args=None, namespace=None):
                                    type=int, default=argparse.SUPPRESS)
         resume_parser.add_argument("--high_memory",
                                    help="increase RAM consumption (store alignment and the genome in RAM)",
-                                   action='store_true', default=False)
+                                   action='store_true', default=argparse.SUPPRESS)
         resume_parser.add_argument("--keep_tmp", help="do not remove temporary files in the end",
                                    action='store_true', default=argparse.SUPPRESS)
 
